@@ -33,7 +33,7 @@ TensorRoutines ==      \* routine, set of flag tuples
   { <<"scalars", <<stab>> >> : stab \in BOOLEAN } \cup
   { <<"accuracy", <<0>> >> }
 DataRoutines ==
-  { <<"cross", fl>> : fl \in { <<cache, dr>> : cache \in BOOLEAN, dr \in {0, 1} } } \cup
+  { <<"cross", fl>> : fl \in { <<cache, dr>> : cache \in BOOLEAN, dr \in {0, 1, 2} } } \cup
   { <<"als", fl>> : fl \in { <<w, lam>> : w \in BOOLEAN, lam \in {"small", "one"} } } \cup
   { <<"als_adaptive", <<0>> >> } \cup
   { <<"anova", <<ord>> >> : ord \in {1, 2} } \cup
